@@ -36,7 +36,7 @@ def children(v):
             out.append((("ipos",), VInt(None, v.pos)))
             if isinstance(v.items, Lin):
                 out.append((("ilen",), VInt(None, v.items)))
-        if isinstance(v.src, VIter) or (isinstance(v.src, VAdt) and v.kind in ("take", "enumerate", "copied", "map", "filter", "filter_map", "flatten")):
+        if isinstance(v.src, VIter) or (isinstance(v.src, VAdt) and v.kind in ("take", "enumerate", "copied", "map", "filter", "filter_map", "flatten", "map_while")):
             out.append((("isrc",), v.src))
         elif v.kind in ("zip2", "chain2"):
             for i_, x_ in enumerate(v.src):
